@@ -186,7 +186,9 @@ func zzFatalDropsSession() {
 	}
 	c := zzNConn(isClient, nw, cfg)
 	common := dtlsstate.CommonState(c.state)
-	sid := zzsymBytes("session_id", zzsymChoice("sidlen", zzsymParam("NKEY")))
+	// session ids as this library issues them (32 bytes), shorter ones, and the longer ones the hello codecs and the
+	// resumption paths accept as well (up to 255): whatever can be resumed must be invalidated
+	sid := zzsymBytes("session_id", []int{0, 1, 2, 32, 33, 255}[zzsymChoice("sidlen", 3+zzsymParam("NKEY"))])
 	common.SessionID = sid
 	v13 := zzsymChoice("dtls13", 2) == 1
 	if v13 {
